@@ -147,6 +147,38 @@ pub assume_specification<'a> [Scanner::<'a>::get] (s: &Scanner<'a>, range: core:
     ensures forall|i: nat, j: nat| i <= j && j <= sc_src(s).len() && boff(sc_src(s), i) == range.start && boff(sc_src(s), j) == range.end
         ==> r@ == sc_src(s).subrange(i as int, j as int);
 
+// the rest of the Scanner API (not used by the pinned lexer; specified so that a changed lexer stays decidable)
+pub assume_specification<'a, T, P: unscanny::Pattern<T>> [Scanner::<'a>::at::<T>] (s: &Scanner<'a>, pat: P) -> (r: bool)
+    ensures r == pat_mlen::<T, P>(pat, rest(s)).is_some();
+pub assume_specification<'a> [Scanner::<'a>::done] (s: &Scanner<'a>) -> (r: bool)
+    ensures sc_ci(s) <= sc_src(s).len() ==> r == (sc_ci(s) == sc_src(s).len());
+pub assume_specification<'a> [Scanner::<'a>::string] (s: &Scanner<'a>) -> (r: &'a str)
+    ensures r@ == sc_src(s);
+pub assume_specification<'a> [Scanner::<'a>::before] (s: &Scanner<'a>) -> (r: &'a str)
+    ensures sc_ci(s) <= sc_src(s).len() ==> r@ == sc_src(s).subrange(0, sc_ci(s) as int);
+pub assume_specification<'a> [Scanner::<'a>::after] (s: &Scanner<'a>) -> (r: &'a str)
+    ensures sc_ci(s) <= sc_src(s).len() ==> r@ == rest(s);
+pub assume_specification<'a> [Scanner::<'a>::uneat] (s: &mut Scanner<'a>) -> (r: Option<char>)
+    ensures sc_src(final(s)) == sc_src(old(s)),
+        0 < sc_ci(old(s)) <= sc_src(old(s)).len() ==> r == Some(sc_src(old(s))[sc_ci(old(s)) - 1]) && sc_ci(final(s)) == sc_ci(old(s)) - 1,
+        sc_ci(old(s)) == 0 ==> r.is_none() && sc_ci(final(s)) == 0;
+pub assume_specification<'a> [Scanner::<'a>::eat_whitespace] (s: &mut Scanner<'a>) -> (r: &'a str)
+    ensures sc_src(final(s)) == sc_src(old(s)),
+        sc_ci(old(s)) <= sc_src(old(s)).len() ==> sc_ci(old(s)) <= sc_ci(final(s)) <= sc_src(old(s)).len();
+pub assume_specification<'a, T, P: unscanny::Pattern<T>> [Scanner::<'a>::expect::<T>] (s: &mut Scanner<'a>, pat: P)
+    requires pat_mlen::<T, P>(pat, rest(old(s))).is_some()
+    ensures sc_src(final(s)) == sc_src(old(s)),
+        sc_ci(final(s)) == sc_ci(old(s)) + pat_mlen::<T, P>(pat, rest(old(s))).unwrap();
+pub assume_specification<'a> [Scanner::<'a>::scout] (s: &Scanner<'a>, n: isize) -> (r: Option<char>)
+    ensures n >= 0 && sc_ci(s) + n < sc_src(s).len() ==> r == Some(sc_src(s)[sc_ci(s) + n]),
+        n >= 0 && sc_ci(s) + n >= sc_src(s).len() ==> r.is_none(),
+        n < 0 && sc_ci(s) + n >= 0 && sc_ci(s) <= sc_src(s).len() ==> r == Some(sc_src(s)[sc_ci(s) + n]),
+        n < 0 && sc_ci(s) + n < 0 ==> r.is_none();
+pub assume_specification<'a> [Scanner::<'a>::locate] (s: &Scanner<'a>, n: isize) -> (r: usize)
+    ensures sc_ci(s) <= sc_src(s).len() ==> r == boff(sc_src(s), (if sc_ci(s) + n < 0 { 0int } else if sc_ci(s) + n > sc_src(s).len() { sc_src(s).len() as int } else { sc_ci(s) + n }) as nat);
+pub assume_specification<'a> [Scanner::<'a>::to] (s: &Scanner<'a>, end: usize) -> (r: &'a str)
+    ensures forall|j: nat| sc_ci(s) <= j && j <= sc_src(s).len() && boff(sc_src(s), j) == end ==> r@ == sc_src(s).subrange(sc_ci(s) as int, j as int);
+
 pub assume_specification [char::is_ascii_digit] (c: &char) -> (r: bool) ensures r == ('0' <= *c && *c <= '9');
 pub assume_specification [char::is_ascii_hexdigit] (c: &char) -> (r: bool)
     ensures r == (('0' <= *c && *c <= '9') || ('a' <= *c && *c <= 'f') || ('A' <= *c && *c <= 'F'));
